@@ -19,6 +19,10 @@ theorem actor_is_caller_or_allowance_guarded : tableOk minfos = true := by decid
 /-- no keeper call of a state-changing method is missing from the payer-position table of the translator -/
 theorem no_unclassified_keeper_calls : methods.all (fun m => m.unknown.isEmpty) = true := by decide
 
+/-- both dispatchers: length guard, then `readonly && !method.IsReadonly()` → error, then the governance switch check
+with (ctx, own address, the matched 4-byte id) → error, only then `method.Run`; every error path returns a non-nil error -/
+theorem dispatchers_guard_before_dispatch : dispatchers.all dispatcherOk = true ∧ dispatchers.length = 2 := by decide
+
 /-- what "not reduced, redirected or cancelled" means for account `a` when `c` is the direct caller -/
 structure Safe (w w' : World) (a c : Addr) (call : Call) : Prop where
   funds : w.bal a + w.rewards a ≤ w'.bal a + w'.rewards a
